@@ -112,6 +112,8 @@ def _site_statements(sp):
         ("hidden-alias-new", "_ = new(%sHiddenAlias)" % q), ("hidden-write", "%sGetHidden().V = 3" % q), ("hidden-inc", "%sGetHidden().V++" % q),
         ("ptralias-write", "var pa# %s = t; @@pa#.F = 12" % sp["PT"]), ("ptralias-inc", "var pb# %s = t; @@pb#.F++" % sp["PT"]),
         ("ptralias-method", "var ph# %s = h; @@ph#.Reset()" % sp["PH"]), ("ptralias-closure", "_ = func(x %s) { @@x.F = 13 }" % sp["PT"]),
+        ("ctor-multiline-lit", "_ = []%s{\n\t@2@{},\n\t@3@{F: 2}}" % T), ("tonl-multiline-call", "_ = %sMock() +\n\t@2@%sMock()" % (q, q)),
+        ("tonl-else-if", "if %sMock() > 5 {\n\t@2@_ = %sMock()\n} else if @3@%sMock() > 1 {\n\t_ = 0\n}" % (q, q, q)),
         ("sibling-h-method", "getH().Reset()"), ("sibling-t-write", "getT().F = 11"), ("sibling-h-elided", "_ = hlist{{}, {N: 2}}"),
         ("sibling-s-method", "_ = getS().Open()"),
     ]
@@ -231,6 +233,12 @@ def add_user_package(W, rng, dname, pkgname, sp, nfuncs, sid_prefix, test_file=F
             mk = "/*@%s:%s*/ " % (sid, tag)
             line = line.replace("#", str(k))
             lines = [line.replace("@@", mk) if "@@" in line else mk + line]
+            if "\n" in lines[0]:
+                # a statement over several lines: further markers @2@, @3@ get their own site ids
+                lines = lines[0].split("\n")
+                for j in range(len(lines)):
+                    for x in ("2", "3"):
+                        lines[j] = lines[j].replace("@%s@" % x, "/*@%sx%s:%s*/ " % (sid, x, tag))
             depth = rng.choice([0, 0, 1, 1, 2, 3])
             nests = []
             for _ in range(depth):
